@@ -409,10 +409,17 @@ def on_boundary(eng, c, k, op, out):
             return vio
         model.add(op[1], op[2], world.term["roots"][op[3]])
         st["adds"] += 1
-        v, n = semantic_check(world, before, op, docs)
-        st["semantic_checked"] += n
-        if v:
-            vio.append(v)
+        dst_real = world.get("schemas", op[1])
+        order_as_model = True
+        try:
+            order_as_model = rules_proj(model.fresh_schema(op[1]).rules) == rules_proj(dst_real.rules)
+        except Exception:
+            pass
+        if order_as_model or sum(1 for r in dst_real.rules if getattr(r, "cast", None)) < 2:
+            v, n = semantic_check(world, before, op, docs)
+            st["semantic_checked"] += n
+            if v:
+                vio.append(v)
     # structural + behavioural comparison of EVERY schema with the model
     for i in range(len(world.term["schemas"])):
         real = world.get("schemas", i)
@@ -421,27 +428,41 @@ def on_boundary(eng, c, k, op, out):
         except Exception as e:  # model cannot be built: harness-side problem
             raise RuntimeError(f"reference model not buildable: {e!r}")
         a, b = rules_proj(fresh.rules), rules_proj(real.rules)
-        if a != b:
-            path = diff_path(a, b)
-            role = "source" if op[0] == "add" and i == op[2] else ("receiver" if op[0] == "add" and i == op[1] else "bystander")
-            vio.append(
-                dict(
-                    oracle="rules_differ_from_model",
-                    locus=f"{role}:{attr_locus(path)}",
-                    detail={"schema": i, "after_op": op, "diff": list(path or ()), "n_model": len(fresh.rules), "n_real": len(real.rules)},
+        role = "source" if op[0] == "add" and i == op[2] else ("receiver" if op[0] == "add" and i == op[1] else "bystander")
+        same_order = a == b
+        if not same_order:
+            # The property fixes the order only up to "shortest path first": another
+            # order of rules with equally long paths is not a violation.  So: same
+            # multiset of rules, and path lengths non-decreasing.
+            sa, sb = sorted(a[1], key=repr), sorted(b[1], key=repr)
+            if sa != sb:
+                path = diff_path(("list", tuple(sa)), ("list", tuple(sb))) if len(sa) == len(sb) else diff_path(a, b)
+                vio.append(
+                    dict(
+                        oracle="rules_differ_from_model",
+                        locus=f"{role}:{attr_locus(path)}",
+                        detail={"schema": i, "after_op": op, "diff": list(path or ()), "n_model": len(fresh.rules), "n_real": len(real.rules)},
+                    )
                 )
-            )
-            return vio
+                return vio
+            try:
+                lens = [len(r.path) for r in real.rules]
+            except Exception:
+                lens = None
+            if lens is None or lens != sorted(lens):
+                vio.append(dict(oracle="rules_differ_from_model", locus=f"{role}:not_shortest_path_first", detail={"schema": i, "after_op": op, "path_lengths": lens}))
+                return vio
+            st["tie_order_differs_from_model"] += 1
         st["structural_checked"] += 1
+        if not same_order and sum(1 for r in real.rules if getattr(r, "cast", None)) >= 2:
+            # rules with casts see the casts of the cast rules before them, so with
+            # two or more cast rules the verdict may legitimately depend on the
+            # order of equally long paths, which the property leaves open
+            st["behaviour_skipped_tie_order_and_casts"] += 1
+            continue
         for di, d in enumerate(docs):
-            try:
-                want = ("ok", canon_vd(fresh.validate(d)))
-            except Exception as e:
-                want = ("raise", type(e).__name__)
-            try:
-                got = ("ok", canon_vd(real.validate(d)))
-            except Exception as e:
-                got = ("raise", type(e).__name__)
+            want = validate_outcome(fresh, d, strict=same_order)
+            got = validate_outcome(real, d, strict=same_order)
             st["behavioural_checked"] += 1
             if want != got:
                 vio.append(
@@ -452,14 +473,29 @@ def on_boundary(eng, c, k, op, out):
                     )
                 )
                 return vio
-    if op[0] == "validate" and out[0] == "ok":
-        try:
-            want = ("ok", canon_vd(model.fresh_schema(op[1]).validate(docs[op[2]])))
-        except Exception as e:
-            want = ("raise", type(e).__name__)
-        if want != out:
-            vio.append(dict(oracle="validates_differently_from_model", locus="validate-op", detail={"op": op}))
     return vio
+
+
+def validate_outcome(schema, d, strict):
+    """Canonical outcome of schema.validate(d).  `strict`: everything, in rule
+    order (used when the schema's rules are in exactly the model's order).
+    Otherwise only what does not depend on the order of equally long paths:
+    verdict, counts and the multiset of per-rule verdicts."""
+    try:
+        vd = schema.validate(d)
+        if strict:
+            return ("ok", canon_vd(vd))
+        cores = sorted(
+            (
+                (rt.tested, rt.is_valid, rt.num_failures, tuple((snap(f.value), snap(f.path), snap(f.reasons)) for f in rt.failures))
+                for rt in vd.rule_tests
+            ),
+            key=repr,
+        )
+        return ("ok", ("vd-unordered", vd.is_valid, vd.num_failures, vd.num_rules_tested, tuple(cores), isinstance(vd.get_failures_string(), str)))
+    except Exception as e:
+        # which rule raises first depends on the order of equally long paths
+        return ("raise", type(e).__name__ if strict else "*")
 
 
 def run(case):
@@ -476,7 +512,7 @@ def run(case):
             mon.register(f"rules[{i}]", world.get("rules", i))
     for i, r in enumerate(world.roots):
         mon.register(f"roots[{i}]", r)
-    world.state = {"model": Model(term), "adds": 0, "semantic_checked": 0, "structural_checked": 0, "behavioural_checked": 0}
+    world.state = {"model": Model(term), "adds": 0, "semantic_checked": 0, "structural_checked": 0, "behavioural_checked": 0, "tie_order_differs_from_model": 0, "behaviour_skipped_tie_order_and_casts": 0}
     eng = Engine(world, case["programs"], exec_op, mon, Scripted(case["decisions"]), mode="op", on_boundary=on_boundary)
     eng.run()
     st = world.state
@@ -500,6 +536,7 @@ def run(case):
         "structural_comparisons": st["structural_checked"],
         "behavioural_comparisons": st["behavioural_checked"],
         "semantic_S_plus_T_checks": st["semantic_checked"],
+        "schemas_whose_tie_order_differs_from_model": st["tie_order_differs_from_model"],
         "set:histories": {key},
     }
     return Report(eng.violations, stats, eng.event_digest(), case=case, nontrivial_key=key if (reuse or chain) else None)
